@@ -39,6 +39,25 @@ pub mod microstack {
             ensures final(self).view() == old(self).view().push(v),
         { unimplemented!() }
 
+        /// Ok and pushed when there is room, Err and unchanged otherwise (never panics)
+        #[verifier::external_body]
+        pub fn try_push(&mut self, v: V) -> (r: Result<(), String>)
+            ensures
+                old(self).view().len() < N ==> r.is_ok() && final(self).view() == old(self).view().push(v),
+                old(self).view().len() >= N ==> r.is_err() && final(self).view() == old(self).view(),
+        { unimplemented!() }
+
+        #[verifier::external_body]
+        pub fn pop(&mut self) -> (r: V)
+            requires old(self).view().len() > 0,
+            ensures r == old(self).view().last(), final(self).view() == old(self).view().drop_last(),
+        { unimplemented!() }
+
+        #[verifier::external_body]
+        pub fn capacity(&mut self) -> (r: usize)
+            ensures r == N, final(self).view() == old(self).view(),
+        { unimplemented!() }
+
         #[verifier::external_body]
         pub fn into_iter(&self) -> (r: IntoIter<'_, V, N>)
             ensures r.src() == self.view(), r.pos() == 0,
